@@ -18,7 +18,6 @@ func init() {
 			}
 			if tier == "thorough" {
 				jobs = append(jobs, Job{Pkg: "root", Func: "verifC09", Args: []int64{4, 4}})
-				jobs = append(jobs, Job{Pkg: "root", Func: "verifC09", Args: []int64{5, 3}})
 			}
 			return jobs
 		},
@@ -26,9 +25,9 @@ func init() {
 		MustReach: []string{"c09.mixed", "c09.two-exceptions"},
 		Bounds: map[string]string{
 			"quick":    "sequences of 0..3 rewrite rules; each rule: exception flag and $important symbolic, payload one of {empty, CNAME, rcode-only, A, TXT, MX} with symbolic contents; pairs over all ten kinds (plus AAAA, SRV, HTTPS/SVCB with a parameter map, PTR)",
-			"thorough": "as quick, plus sequences of 4 rules over {empty, CNAME, rcode-only, A} and of 5 rules over {empty, CNAME, rcode-only}",
+			"thorough": "as quick, plus sequences of 4 rules over {empty, CNAME, rcode-only, A} and triples over all ten kinds",
 		},
-		Outside:     []string{"more than 5 rewrite rules on one hostname", "$badfilter on rewrite rules (C08)"},
+		Outside:     []string{"more than 4 rewrite rules on one hostname", "$badfilter on rewrite rules (C08)"},
 		Assumptions: []string{"rules are built field by field and re-parsed from '||x^$dnsrewrite=...' text during native replay"},
 		Rule:        "payload kinds fork (concrete dynamic types); flags and contents are symbolic; one state per feasible path",
 	})
